@@ -1,3 +1,4 @@
+mod c05;
 mod c17;
 mod case;
 mod exec_float;
@@ -38,13 +39,32 @@ fn self_test() {
 fn gen_case(prop: &str, seed: u64, index: u64) -> case::Case {
     match prop {
         "C17" => c17::gen_case(seed, index),
+        "C05" => c05::gen_case(seed, index),
         _ => die(&format!("unknown property {prop}")),
     }
 }
 
-fn run_case(c: &case::Case, stats: &mut run::Stats) -> c17::CaseResult {
+/// per-property oracle state that outlives single cases (counters for the evidence)
+struct Ctx {
+    c05: c05::C05Hook,
+}
+impl Ctx {
+    fn new() -> Ctx {
+        Ctx { c05: c05::C05Hook::new() }
+    }
+    fn extra(&self) -> serde_json::Value {
+        serde_json::json!({
+            "c05_comparisons": self.c05.comparisons,
+            "c05_equal_pairs": self.c05.equal_pairs,
+            "c05_cross_layout_equal_pairs": self.c05.cross_layout_equal_pairs,
+        })
+    }
+}
+
+fn run_case(c: &case::Case, stats: &mut run::Stats, ctx: &mut Ctx) -> case::CaseResult {
     match c.property.as_str() {
         "C17" => c17::run_case(c, stats),
+        "C05" => case::CaseResult::from_outcome(c05::run_case(c, stats, &mut ctx.c05)),
         p => die(&format!("unknown property {p}")),
     }
 }
@@ -78,6 +98,7 @@ fn main() {
             let hashes = args.iter().any(|a| a == "--hashes");
             let recheck = arg_u64(&args, "--recheck-every", 100);
             let mut stats = run::Stats::new();
+            let mut ctx = Ctx::new();
             let mut nviol = 0;
             let mut executions = 0u64;
             let mut fault_points = 0u64;
@@ -88,7 +109,7 @@ fn main() {
                 run::CUR_RUN.store(i, std::sync::atomic::Ordering::Relaxed);
                 run::watchdog(120);
                 let c = gen_case(prop, seed, i);
-                let r = run_case(&c, &mut stats);
+                let r = run_case(&c, &mut stats, &mut ctx);
                 executions += r.executions;
                 fault_points += r.fault_points;
                 if c.enumerate {
@@ -112,7 +133,8 @@ fn main() {
                 } else if recheck > 0 && i % recheck == 0 {
                     // determinism re-check: the same case must give the same event-log hash chain
                     let mut s2 = run::Stats::new();
-                    let r2 = run_case(&c, &mut s2);
+                    let mut ctx2 = Ctx::new();
+                    let r2 = run_case(&c, &mut s2, &mut ctx2);
                     rechecked += 1;
                     if r2.chain != r.chain || r2.violation.is_some() {
                         writeln!(lock, "HARNESS run={} error=nondeterministic re-execution ({:016x} vs {:016x})", i, r.chain, r2.chain).unwrap();
@@ -131,6 +153,7 @@ fn main() {
             j["histories_enumerated"] = enumerated.into();
             j["determinism_rechecks"] = rechecked.into();
             j["violations"] = nviol.into();
+            j["extra"] = ctx.extra();
             writeln!(lock, "STATS {}", j).unwrap();
         }
         "exec" => {
@@ -140,7 +163,8 @@ fn main() {
             let v: serde_json::Value = serde_json::from_str(&text).unwrap_or_else(|e| die(&format!("{file}: {e}")));
             let c = case::Case::from_json(&v).unwrap_or_else(|e| die(&e));
             let mut stats = run::Stats::new();
-            let r = run_case(&c, &mut stats);
+            let mut ctx = Ctx::new();
+            let r = run_case(&c, &mut stats, &mut ctx);
             if let Some(e) = r.harness_error {
                 println!("RESULT harness_error {}", e);
                 std::process::exit(2);
